@@ -708,6 +708,18 @@ def check_C04(ctx):
     for mode, c, i, pl in strata_frames(ctx):
         lines.append(f"construct {c.hex()} {i.hex()} {mode} 1 P {canon.hx(pl)}" if pl else f"construct {c.hex()} {i.hex()} {mode} 1 E")
         meta.append(("payload", dict(mode=mode, cls=c, id=i, name=f"strata-{c.hex()}{i.hex()}-len{len(pl)}"), None))
+    # payloads the 16-bit length field cannot describe: construction must be refused (or the frame be well-formed)
+    for L in (65536, 65537, 65541, 65536 + 256, 131072):
+        for mode, c, i in ((0, b"\x77", b"\x05"), (0, b"\x04", b"\x02")):
+            pl = bytes(rng.choice(b"ab \x00\x01") for _ in range(L))
+            lines.append(f"construct {c.hex()} {i.hex()} {mode} 1 P {canon.hx(pl)}")
+            meta.append(("payload", dict(mode=mode, cls=c, id=i, name=f"oversize-{c.hex()}{i.hex()}-len{L}"), None))
+    # variable-length text given as bytes, valid UTF-8 or not (the constructor copies bytes as they are)
+    for ent in [e for e in ctx.reach if list(e["defn"].values()) == ["CH"]]:
+        k = next(iter(ent["defn"]))
+        for v in (b"plain", b"temp 23\xb0C", b"\xb5\x62\x00\xff", b"\xe2\x82", bytes(rng.getrandbits(8) for _ in range(9))):
+            lines.append(f"construct {ent['cls'].hex()} {ent['id'].hex()} {ent['mode']} 1 A {k}={canon.valstr(v)}")
+            meta.append(("keywords", ent, None))
     # config helpers
     names = list(ubc.UBX_CONFIG_DATABASE)
     for _ in range(ctx.n(150, 1500)):
@@ -1561,7 +1573,10 @@ def check_C10(ctx):
             got = canon.excname(e)
         th.join()
         a.close(); b.close()
-        exp = [(raw, str(p)) for raw, p in UBXReader(io.BytesIO(s), quitonerror=0)]
+        try:
+            exp = [(raw, str(p)) for raw, p in UBXReader(io.BytesIO(s), quitonerror=0)]
+        except Exception as e:  # noqa
+            exp = "file:" + canon.excname(e)
         res.count()
         if got != exp:
             res.finding("class=real-socket-differs-from-file", "items read through a real socket pair differ from items read from a file", dict(stream=s.hex(), end=end))
@@ -1968,10 +1983,12 @@ def check_C14(ctx):
                 name = rng.choice(names)
                 kid, ty = db[name]
                 form = name if rng.random() < 0.5 else f"#{kid}"
-            if kid in used:
-                continue
             used.add(kid)
             items.append((form, name, kid, ty, gen.cfg_value(rng, ty)))
+            # the same key again (other form, other value): a list is a list — every item is emitted, in order
+            if rng.random() < 0.12 and len(items) < k:
+                form2 = name if form.startswith("#") and name in db else f"#{kid}"
+                items.append((form2, name, kid, ty, gen.cfg_value(rng, ty)))
         lay_, txn, pos = rng.choice([0, 1, 2, 4, 7, 255]), rng.choice([0, 1, 2, 3, 255]), rng.choice([0, 1, 64, 65535])
         lines.append(f"cfgset {lay_} {txn} " + " ".join(f"{f}={canon.valstr(v)}" for f, n, k_, t, v in items))
         meta.append(("set", lay_, txn, [(n, k_, t, v) for f, n, k_, t, v in items]))
